@@ -105,9 +105,13 @@ claim("C06", "proof",
       "a false return stops the visit (no further visitor call can follow: the stop flag is a postcondition). VisitItemsAscendEx/DescendEx/Ascend/Descend carry the same clauses from the collection's current root; the order-checking wrapper and the depth-dropping adapters are verified against the visitor contract they are handed to visitNodes under; newIterator carries target and value mode to the producer.",
       A_COMMON + A_TREE + " The iterators' producer/consumer goroutines are outside the subset (only newIterator is under contract); the link 'a closure verified against clauses X is used where the functype contract X is assumed' is by construction of the contract file, not checked by the engine; visitors are neutral (A9: they only write the ghost log).")
 
+claim("C18", "other",
+      "Sequential obligations only: every visit entry point (VisitItemsAscend/Descend and the Ex variants, which the iterator's producer runs) releases the version it pinned on every path, error paths included (rootNodeLoc.refs is unchanged at exit: a postcondition), "
+      "no gkvlite lock is held while a visitor callback, a comparator or a StoreFile method runs (lock-set obligations at every callback site), every function under contract returns with the lock set it was entered with, and newIterator hands the requested target/value mode to the producer.",
+      A_COMMON + " The Next/Close/iterate channel handshake, goroutine exit and re-entrant callbacks are NOT decided: goroutines and channel operations are outside the verifier's subset (family limit; a model checker is the fitting tool).")
+
 for pid, why in {
     "C11": "CopyTo not under contract yet in this round",
     "C16": "Len and the block visits not under contract yet in this round",
-    "C18": "iterator (goroutine + channels) is outside the verifier's subset; the sequential obligations (pins released, no lock across callbacks) are not claimed yet",
 }.items():
     not_yet(pid, why)
